@@ -34,6 +34,7 @@ struct RouterGenCfg {
     bool ortho = false, transactions = true, costOracles = true, pinsGeometry = false;
     std::map<int, double> params;
     std::map<int, bool> options;
+    std::string styleExtra;
     bool selective = true, invis = true, lees = true;
     double gap = 5, endMargin = 1;
     bool polygons = false, touching = false, dirRestrict = false, checkpoints = false, cancelFaults = false, outputOps = false, trailingEdits = false, allowDeleteAttached = true;
